@@ -74,9 +74,29 @@ class SArr(ex.XArr):
     """XArr with symbolic-index select / scatter.  `.dtype` (as seen by the code under test) reports
     the numpy dtype the array would have: int64 for integer-kind arrays, float64 otherwise."""
 
+    ubits = 0  # > 0: unsigned integer array of that width (arithmetic wraps modulo 2**ubits, as numpy's does)
+
+    def __array_finalize__(self, obj):
+        ex.XArr.__array_finalize__(self, obj)
+        self.ubits = int(getattr(obj, "ubits", 0) or 0)
+
     @property
     def dtype(self):
+        if self.ubits:
+            return np.dtype("uint%d" % self.ubits)
         return np.dtype("int64") if self.ikind else np.dtype("float64")
+
+    def __neg__(self):
+        if not self.ubits:
+            return np.negative(self)
+        m = 2 ** self.ubits
+        out = np.empty(self.shape, dtype=object)
+        for idx in np.ndindex(self.shape):
+            t = _elem(np.ndarray.__getitem__(self, idx))
+            out[idx] = ex.R(z3.If(t == 0, z3.RealVal(0), m - t))
+        out = out.view(SArr)
+        out.ikind, out.ubits = True, self.ubits
+        return out
 
     def __getitem__(self, key):
         if isinstance(key, SI):
@@ -256,8 +276,12 @@ def source_area_part(run, utils, shapes, account=True):
         c.assume += [x.v >= 0 for x in fv]
         layout = "C"
         int_g = False
+        ubits = 0
         if len(shape) == 3 and shape[2] == "I":  # integer-typed base field (class map, sector index)
             shape, int_g = (shape[0], shape[1]), True
+        if len(shape) == 3 and shape[2] == "U":  # unsigned class map (uint8): integers 0..255, wrapping arithmetic
+            shape, int_g, ubits = (shape[0], shape[1]), True, 8
+            c.assume += [z3.And(x.v >= 0, x.v <= 255, z3.IsInt(x.v)) for x in gv]
         if len(shape) == 3:  # (ny, nx, "T"): the same logical arrays passed as transposed (non C-contiguous) views
             shape, layout = (shape[0], shape[1]), "transposed view"
             fa = sarr(fv, (shape[1], shape[0])).T
@@ -270,6 +294,9 @@ def source_area_part(run, utils, shapes, account=True):
         if int_g:
             ga.ikind = True
             layout = "C, integer-typed g"
+        if ubits:
+            ga.ubits = ubits
+            layout = "C, unsigned integer g (uint%d)" % ubits
         res = utils.get_source_area(fa, ga)
         scn = dict(function="get_source_area", shape=list(shape), memory_layout=layout)
         if int_g:
@@ -451,6 +478,10 @@ def replay(rec):
             cases.append((fm.reshape(1, nn), gm.reshape(1, nn)))
     cases.append((rng.random((2, 3)), np.array([[3, 1, 2], [0, 5, 4]])))
     cases.append((rng.random((2, 2)), np.array([[3, 1], [2, 0]], dtype=np.int32)))
+    cases.append((rng.random((2, 2)), np.array([[3, 1], [2, 0]], dtype=np.uint8)))
+    cases.append((rng.random((2, 3)), np.array([[7, 0, 2], [0, 5, 200]], dtype=np.uint16)))
+    if m and "unsigned" in str(rec.get("scenario", {}).get("memory_layout", "")) and nn:
+        cases.append((fm.reshape(1, nn), np.round(gm).astype(np.uint8).reshape(1, nn)))
     for f, g in cases:
         r = get_source_area(f, g)
         if r.shape != g.shape:
@@ -526,7 +557,7 @@ def worker(args):
 
 def main(run):
     quick = run.tier == "quick"
-    area_shapes = [(1, 1), (1, 3), (2, 2), (1, 5), (2, 3), (2, 3, "T"), (2, 2, "I")] if quick else [(1, 1), (1, 3), (2, 2), (1, 5), (2, 3), (2, 3, "T"), (2, 2, "I"), (3, 2), (1, 6)]
+    area_shapes = [(1, 1), (1, 3), (2, 2), (1, 5), (2, 3), (2, 3, "T"), (2, 2, "I"), (2, 2, "U")] if quick else [(1, 1), (1, 3), (2, 2), (1, 5), (2, 3), (2, 3, "T"), (2, 2, "I"), (2, 2, "U"), (1, 3, "U"), (3, 2), (1, 6)]
     # 8 cells ((2, 4)): 13 of 18 contour queries are `unknown` after 300 s each; outside the bound
     contour_shapes = [(2, 2), (2, 3)] if quick else [(2, 2), (2, 3), (3, 2)]
     run.explanation = (
